@@ -29,13 +29,16 @@ RULE = ('array cases = (record, container, dt, trap in {True,False}, call style)
         'calc_velo_and_disp_from_accel_arr / velocity_and_displacement_from_acceleration. Records: classes of DESIGN '
         'section 4 plus one-signed, constant, linear (closed forms), extreme at the first / last sample, plateau at '
         'the start / end, sign change before the last sample, large offset under a small signal, peak anywhere in '
-        '1e-12..1e12; n in [2,5000] incl. 2^k-1, 2^k, 2^k+1 and a few records of 65537..100000 samples per run. '
+        '1e-12..1e12, one sample 1e3..1e16 times larger than the others (first / last / inside, optionally followed by '
+        'its negative), quiet-but-not-silent lead-in with all the action in the last 1/k, constant with a single '
+        'changed sample, alternating sign with an offset; n in [2,5000] incl. 2^k-1, 2^k, 2^k+1 and a few records of 65537..100000 samples per run. '
         'Containers: float64, float32, int64, int32, int16, int8, uint8, uint16 with ordinary magnitudes and '
         '"narrow-full" records (int8/uint8/int16/uint16/int32/int64 using 95% of the dtype\'s range, some containing '
         'iinfo.min / iinfo.max, so that neighbour sums, integer dt * sample and abs() leave the dtype), '
         'x[::2]-type and negative-stride views, read-only arrays, lists / tuples of floats, of Python ints, mixed '
         'int+float lists. dt: nice / reciprocal / log-uniform in [1e-5,10] and [1e-9,1e3] / Python int / '
-        'numpy.float64 / numpy.float32 / numpy.int64 / 0-d array. Call styles: trap by keyword, positionally, all '
+        'numpy.float64 / numpy.float32 / numpy.int64 / 0-d array / gen.awkward_dt (dt/(dt/k) != k). Each case calls '
+        'BOTH public names of the integration and compares them. Call styles: trap by keyword, positionally, all '
         'arguments by keyword, default omitted. The SAME record object goes to every call of a case (both trap '
         'values, calc_peak) and is compared bit-for-bit with its entry snapshot after each call; each case adds the '
         'derived records -x, 2^k x, alpha x, y, alpha x+beta y of the same shape and finally re-checks the FIRST '
@@ -48,7 +51,12 @@ RULE = ('array cases = (record, container, dt, trap in {True,False}, call style)
         'between the peak reads and after mutators) interleaved with reads of velocity / displacement / '
         'pga / pgv / pgd in random order with repeats and with "feed" steps that pass the arrays handed out by the '
         'properties back into the array functions; every read is judged against the values the object holds at that '
-        'moment (velocity by increments on values; displacement and PGV/PGD also against the oracle\'s own '
+        'moment; "derive" steps let the LIBRARY make a new AccSignal from the warm object (deepcopy, '
+        'interp_to_approx_dt and resample_to_approx_dt up / down / target == current, combine_at_angle incl. angle '
+        '0, Cluster member, fas2signal -> complex record with a rounding-level imaginary part), read it, correct it '
+        'in place, read it again and require the source object (values and series obtained from it) to be '
+        'bit-for-bit untouched; every property read must leave values / npts / dt unchanged (velocity by '
+        'increments on values; displacement and PGV/PGD also against the oracle\'s own '
         'integral of those values, never only against the object\'s cached series). twin cases = two AccSignal '
         'objects built from the SAME float64 caller array (or from each other\'s values, at construction or via '
         'reset_values; n >= 64, non-zero record); all five quantities of both are read, 1-2 in-place style '
@@ -59,7 +67,15 @@ ASSUMPTIONS = ['finite real 1-D record of length >= 2, dt > 0 (dt = 0, negative 
                'not judged), trap a Python bool (0 / 1 / None / numpy.bool_: probed, not judged)',
                'integer records of any width and magnitude are in domain; the oracle works on their float64 image '
                '(exact below 2**53, correctly rounded above)',
-               'float16 and bool records are outside the quantifier (probed only)',
+               'float16 and bool records are outside the quantifier (probed only); complex records are in domain only '
+               'when the imaginary part is at rounding level (<= 1e-9 of the real part: what fas2signal returns) and '
+               'are then judged in complex arithmetic; genuinely complex "accelerations" are counted, not judged '
+               '(on them trap=False keeps the real part only and calc_peak orders lexicographically)',
+               'the increment identity is judged with a LOCAL allowance: 32*eps*(|s[i]|+|s[i-1]|+dt(|y[i]|+|y[i-1]|)) '
+               'from the oracle\'s own running sum + 32*n*eps^2*global scale + 4 smallest subnormals of the record '
+               'dtype; valid for any implementation that accumulates sequentially (numpy cumsum, scipy '
+               'cumulative_trapezoid); series-vs-reference and relation clauses use worst-case running-sum bounds '
+               '(n*eps*global scale) with the same underflow floor',
                'tolerances are multiples of the machine epsilon of the RECORD dtype (float64 for float64 and integer '
                'records whatever the type of dt - a numpy.float32 dt is used with its exact value float(dt)): only a '
                'float32 record is integrated in float32 by the '
@@ -73,20 +89,22 @@ ASSUMPTIONS = ['finite real 1-D record of length >= 2, dt > 0 (dt = 0, negative 
                'reads after them are still judged',
                'oracle vf/oracles/integrate.py (increment formulas, closed forms, reference integrals) is correct']
 MIN_EVALS = {
-    'quick': {'array.no-exception': 30000, 'array.length': 30000, 'array.start==0': 30000, 'array.finite': 30000,
-              'array.args-unchanged': 32000, 'array.result-stable-after-later-calls': 2400,
-              'array.v.increments(trap)': 20000, 'array.d.increments(trap)': 20000,
-              'array.v.increments(rect)': 10000, 'array.d.increments(rect)': 10000,
-              'array.exact.const': 120, 'array.exact.linear': 180,
-              'calc_peak==max|x|': 41000, 'calc_peak.args-unchanged': 41000,
+    'quick': {'array.no-exception': 41000, 'array.length': 41000, 'array.start==0': 41000, 'array.finite': 41000,
+              'array.args-unchanged': 44000, 'array.result-owns-data': 41000, 'array.alias==primary': 4800,
+              'array.result-stable-after-later-calls': 2400,
+              'array.v.increments(trap)': 27000, 'array.d.increments(trap)': 27000,
+              'array.v.increments(rect)': 14000, 'array.d.increments(rect)': 14000,
+              'array.exact.const': 90, 'array.exact.linear': 120,
+              'calc_peak==max|x|': 46000, 'calc_peak.args-unchanged': 46000,
               'rel.sign': 2400, 'rel.scale.pow2': 2400, 'rel.linearity': 2400,
               'peak.sign-invariant': 2500, 'peak.scale|alpha|': 4700,
-              'obj.length': 27000, 'obj.finite': 27000, 'obj.start==0': 27000, 'obj.velocity.increments': 13500,
-              'obj.displacement.increments': 13500, 'obj.displacement==integral(current values)': 13500,
-              'obj.pga==max|series|': 5000, 'obj.pgv==max|series|': 4500, 'obj.pgd==max|series|': 4500,
-              'obj.peaks==peaks of integral(current values)': 10000,
-              'obj.peaks==max|series| after explicit trap switch': 1000,
-              'obj==array': 3800, 'obj.no-exception': 26000,
+              'obj.length': 41000, 'obj.finite': 41000, 'obj.start==0': 41000, 'obj.velocity.increments': 20000,
+              'obj.displacement.increments': 20000, 'obj.displacement==integral(current values)': 20000,
+              'obj.read-leaves-record-unchanged': 68000,
+              'obj.pga==max|series|': 9000, 'obj.pgv==max|series|': 7800, 'obj.pgd==max|series|': 7800,
+              'obj.peaks==peaks of integral(current values)': 17000,
+              'obj.peaks==max|series| after explicit trap switch': 1800,
+              'obj==array': 5300, 'obj.no-exception': 44000, 'obj.derived.source-untouched': 750,
               'obj.twin.untouched-object-still-consistent': 320, 'obj.twin.held-series-unchanged': 320},
 }
 MIN_EVALS['thorough'] = {k: v * 20 for k, v in MIN_EVALS['quick'].items()}
@@ -782,6 +800,26 @@ def _rs(rng):
             [None, None, 1, 8][int(rng.integers(4))], int(rng.integers(2, 5))]
 
 
+DERIVE_FIX = [['rebase_displacement'], ['set_zero_residual_velocity', None], ['remove_rolling_average', 'acceleration', 4],
+              ['add_constant', 0.5], ['set_zero_residual_displacement']]
+
+
+def _derive(rng):
+    """A new AccSignal made BY THE LIBRARY from the (warm) object of the history; it is read, corrected in place and
+    read again, and the source object must not notice."""
+    kind = ['deepcopy', 'interp', 'interp', 'resample', 'combine', 'cluster', 'fas2signal'][int(rng.integers(7))]
+    fix = DERIVE_FIX[int(rng.integers(len(DERIVE_FIX)))]
+    if kind in ('interp', 'resample'):
+        par = [int(rng.integers(1, 5)), 'up' if rng.random() < 0.6 else 'down', bool(rng.random() < 0.5)]
+    elif kind == 'combine':
+        par = [float(rng.choice([0.0, 0.0, 30.0, 90.0, -45.0])), rng.normal(size=64)]
+    elif kind == 'cluster':
+        par = [rng.normal(size=64)]
+    else:
+        par = []
+    return ['derive', kind, fix] + par
+
+
 def _feed(rng):
     """Hand one of the object's own arrays (values / cached velocity / cached displacement) to the array functions."""
     return ['feed', ['values', 'velocity', 'displacement'][int(rng.integers(3))], bool(rng.random() < 0.6),
@@ -806,6 +844,8 @@ def make_object_scenario(rng, nmax=1500, n=None):
         if rng.random() < 0.4:
             ops.append(_feed(rng))
             ops.append(['read', _reads(rng)])
+        if rs_ok and rng.random() < 0.25:
+            ops.append(_derive(rng))
         ops.append(['agree'])
     for _ in range(int(rng.integers(1, 6))):
         m = MUTATORS[int(rng.integers(len(MUTATORS)))]
@@ -849,6 +889,8 @@ def make_object_scenario(rng, nmax=1500, n=None):
         if rs_ok and rng.random() < 0.15:
             ops.append(_rs(rng))
             ops.append(['read', _reads(rng)])
+        if rs_ok and rng.random() < 0.25:
+            ops.append(_derive(rng))
         if rng.random() < 0.3:
             ops.append(_feed(rng))
             ops.append(['read', _reads(rng)])
@@ -954,6 +996,21 @@ def _array_case(eqsig, ctx, case, held):
         r = res[trap]
         if r is not None and isinstance(r, tuple) and len(r) == 2:
             held.extend([(q, np.array(q, copy=True)) for q in r if isinstance(q, np.ndarray)])
+    # the two public names of the integration must agree (one delegates to the other today)
+    oname = ('velocity_and_displacement_from_acceleration' if fname == 'calc_velo_and_disp_from_accel_arr'
+             else 'calc_velo_and_disp_from_accel_arr')
+    for trap in (True, False):
+        r1 = res[trap]
+        r2 = _call_int(ctx, getattr(eqsig.displacements, oname), oname, X, dt, trap, case)
+        if r1 is None or r2 is None or any(np.shape(q) != (n,) for q in (r1[0], r1[1], r2[0], r2[1])):
+            continue
+        e_ = O.eps_of(base)
+        tv, td = O.running_sum_tolerances(e_, n, dt, Ax, 2 * O.max_abs(r1[0]), 2 * O.max_abs(r1[1]))
+        ev = float(np.max(np.abs(O.f64(r1[0]) - O.f64(r2[0]))))
+        ed = float(np.max(np.abs(O.f64(r1[1]) - O.f64(r2[1]))))
+        ctx.check(ev <= tv and ed <= td, 'array.alias==primary', wit,
+                  '%s and %s disagree (trap=%r): max dv=%.3g (allowed %.3g) max dd=%.3g (allowed %.3g)'
+                  % (fname, oname, trap, ev, tv, ed, td))
     dep = bool(case.get('deprecated_peak'))
     p_x = _peak(ctx, eqsig, X, case, dep)
     # closed forms implied by the increment identity (trap=True only)
@@ -1138,6 +1195,8 @@ def run_object_scenario(eqsig, ctx, scen):
                             ctx.exception('obj.no-exception', dict(scen, failed_at='op %d read %s' % (k, nm)), e)
                 elif op[0] == 'agree':
                     _agree(eqsig, ctx, a, scen, k)
+                elif op[0] == 'derive':
+                    _run_derive(eqsig, ctx, a, op, scen, k)
                 elif op[0] == 'rs':
                     # not judged itself (C03/C04 territory); it must not disturb what the peak reads return
                     try:
@@ -1305,6 +1364,64 @@ def run_twin_scenario(eqsig, ctx, scen):
         CUR['after_switch'] = False
 
 
+def _run_derive(eqsig, ctx, a, op, scen, k):
+    if _domain(a.values, a.dt, True) is not None or len(np.asarray(a.values)) > 3000:
+        return
+    kind, fix, par = op[1], op[2], op[3:]
+    _read_all(ctx, a, READS, scen, 'source')          # the source is warm: every lazy cache filled
+    before = np.array(a.values, copy=True)
+    with attach.paused():
+        held = [a.velocity, a.displacement]
+    held_copy = [np.array(h, copy=True) for h in held]
+    others = []
+    try:
+        n = len(before)
+        dtf = float(a.dt)
+        if kind == 'deepcopy':
+            b = copy.deepcopy(a)
+            if a in MODE:
+                MODE[b] = MODE[a]       # the copy carries the series of the same integration rule
+        elif kind in ('interp', 'resample'):
+            tdt = dtf / par[0] if par[1] == 'up' else dtf * par[0]
+            f = eqsig.fns.time_step.interp_to_approx_dt if kind == 'interp' else eqsig.fns.time_step.resample_to_approx_dt
+            b = f(a, tdt, even=bool(par[2]))
+        elif kind == 'combine':
+            a2 = eqsig.AccSignal(np.resize(np.asarray(par[1], dtype=float), n), a.dt)
+            _read_all(ctx, a2, READS, scen, 'second component')
+            others.append((a2, np.array(a2.values, copy=True)))
+            b = eqsig.combine_at_angle(a, a2, par[0])
+        elif kind == 'cluster':
+            c = eqsig.Cluster([a.values, np.resize(np.asarray(par[0], dtype=float), n)], a.dt, stypes='acc')
+            b = c.signal_by_index(0)
+        else:
+            b = eqsig.fns.frequency.fas2signal(a.fa_spectrum, a.dt, stype='acc')
+    except Exception as e:
+        ctx.observe('derive-exception:%s:%s' % (kind, type(e).__name__))
+        return
+    if not isinstance(b, eqsig.AccSignal):
+        ctx.observe('derive-not-an-AccSignal:%s' % kind)
+        return
+    ctx.observe('derived-object:%s%s' % (kind, ':complex' if np.asarray(b.values).dtype.kind == 'c' else ''))
+    _read_all(ctx, b, READS, scen, 'derived')           # whatever memo it carries must fit ITS values
+    _agree(eqsig, ctx, b, scen, k)
+    try:
+        _apply_mutator(eqsig, b, fix)
+    except Exception as e:
+        ctx.observe('mutator-exception:%s:%s' % (fix[0], type(e).__name__))
+    _read_all(ctx, b, READS[::-1], scen, 'derived')
+    _agree(eqsig, ctx, b, scen, k)
+    now = np.asarray(a.values)
+    same = now.dtype == before.dtype and now.shape == before.shape and now.tobytes() == before.tobytes()
+    same = same and all(np.asarray(h).shape == c_.shape and np.asarray(h).tobytes() == c_.tobytes()
+                        for h, c_ in zip(held, held_copy))
+    for o, ob in others:
+        same = same and np.asarray(o.values).tobytes() == ob.tobytes()
+    ctx.check(same, 'obj.derived.source-untouched', lambda: dict(scen, failed_at='op %d derive %s' % (k, kind)),
+              'the %s-derived object was corrected in place with %s and the source object\'s values (or the series '
+              'obtained from it) changed' % (kind, fix[0]))
+    _read_all(ctx, a, READS, scen, 'source')
+
+
 def _agree(eqsig, ctx, a, scen, k):
     """Object-level series equal what the array-level function returns for the object's values, dt and rule."""
     if _domain(a.values, a.dt, True) is not None:
@@ -1454,7 +1571,7 @@ def run_shard(ctx):
         if ctx.shard % 3 == 2 and j == 0:
             scen = make_object_scenario(rng, nmax=1500, n=nl)
             scen['ops'] = [o for o in scen['ops'] if o[0] not in ('running_average', 'remove_rolling_average',
-                                                                  'correct_me', 'rs')][:9]
+                                                                  'correct_me', 'rs', 'derive')][:9]
             _register(ctx, scen)
             run_object_scenario(eqsig, ctx, scen)
         else:
